@@ -21,7 +21,11 @@ CONSTANTS MaxIdx,     \* largest raft index used
           Keys, Vals, \* stable store keys / values (0 = nil)
           WithBad,    \* generate operations the contract rejects
           WithReopen, WithStable,
-          MinOps      \* only sequences at least this long are emitted
+          MinOps,     \* only sequences at least this long are emitted
+          WithHuge    \* truncation bounds also take the largest index there is (DeleteRange(x, MaxUint64): "everything from x")
+
+(* what the harness turns into math.MaxUint64 (and what it logs for it: 2^30 + MaxUint64 % 1000, TLC integers are 32 bit) *)
+Huge == 1073742439
 
 VARIABLES log,    \* LogOps state
           kv,     \* stable map: key -> value (absent / 0 = unset)
@@ -89,9 +93,10 @@ GetKey(k) ==
 
 (* truncation ranges placed at every position relative to FirstIndex / LastIndex;  *)
 (* ranges the contract treats as no-ops or rejects are generated only WithBad.      *)
-DelCand == IF IsEmpty(log) THEN {0, 1, MaxIdx}
+DelCand == IF IsEmpty(log) THEN {0, 1, MaxIdx} \cup (IF WithHuge THEN {Huge} ELSE {})
            ELSE {x \in {First(log) - 1, First(log), First(log) + 1, Last(log) - 1, Last(log), Last(log) + 1, 0} :
                    x >= 0 /\ x <= MaxIdx + 1}
+                \cup (IF WithHuge THEN {Huge} ELSE {})
 DelRanges == {p \in DelCand \X DelCand :
                 /\ (p[1] <= p[2] \/ (WithBad /\ p[1] = p[2] + 1))
                 /\ (DelClass(log, p[1], p[2]) \in {"head", "tail"} \/ WithBad)}
